@@ -42,6 +42,29 @@ Definition check_611 (fs : list field) : verdict :=
   | _ => VBad 99 []
   end.
 
+(* 616: the single-step accessors Node.Index / Field / GetByStr / GetByInt on a container with an intact header and cut
+   elements.  fields as 611 with a one-step path.  Judged observable first: a node that is handed back lies INSIDE the
+   buffer (0 <= start, end <= |bs|) whatever the model says; then the model (an element beyond the bytes present is an error). *)
+Definition check_616 (fs : list field) : verdict :=
+  match fs with
+  | FZ t :: FB bs :: rest =>
+    match parse_path rest with
+    | Some (p, [FZ st; FZ ty; FZ s; FZ e]) =>
+      if st =? 3 then VBad 3 [] else
+      if (st =? 0) && negb ((0 <=? s) && (s <=? e) && (e <=? zlen bs)) then VBad 4 [FZ (zlen bs)] else
+      if existsb (fun x => match x with PStrKey _ => true | _ => false end) p
+         && has_huge_len (Z.max (zlen bs) (2 ^ 20)) bs && (match skip_go t bs with Some _ => false | None => true end) then VSkip else
+      match get_by_path t bs 0 p with
+      | GFound t' a b =>
+        if st =? 0 then expect 1 ((ty =? t') && (s =? a) && (e =? b)) [FZ t'; FZ a; FZ b]
+        else VDrift 1
+      | GNotFound | GErr => expect 2 (negb (st =? 0)) [FZ 2]
+      end
+    | _ => VBad 99 []
+    end
+  | _ => VBad 99 []
+  end.
+
 (* 612: conv/t2j.  fields: options, descriptor..., bytes, error class (0 nil, 1 error, 3 panic, 4 no answer) *)
 Definition check_612 (fs : list field) : verdict :=
   match fs with
